@@ -1,7 +1,7 @@
 (* C04 - logical/shape-based components compose by conformance, not by leaked results. *)
-From Coq Require Import List NArith Bool.
+From Coq Require Import List NArith ZArith Bool.
 From Verif Require Import Base.SetList Base.Terms Base.Vocab Paths.Path Shapes.AST Shapes.Leaf Shapes.Eval
-  Shapes.EvalProofs Shapes.AbortProofs.
+  Shapes.EvalProofs Shapes.AbortProofs Shapes.LeakProofs.
 Import ListNotations.
 
 (* A node conforms to a referenced shape exactly when validating it against that shape
@@ -34,3 +34,33 @@ Theorem C04_conformance_only : forall trig n1 n2 g E s fvs ep c cr,
   evalc trig n2 g E s fvs ep c = Ok cr -> evalc trig n1 g E s fvs ep c = Ok cr.
 Proof. exact evalc_conformance_only. Qed.
 Print Assumptions C04_conformance_only.
+
+(* Results of shapes consulted only for conformance never surface: every result returned for a
+   shape was produced by a constraint of that shape or of a property shape reached from it
+   through sh:property links only; it carries that shape's identity and severity; nested
+   results appear only as sh:detail of sh:node results. *)
+Theorem C04_no_leak : forall trig o g E fuel top ep s foci cr,
+  vshape trig fuel o g E top ep s foci = Ok cr -> Forall (owned_by E s) (snd cr).
+Proof. exact vshape_owned. Qed.
+Print Assumptions C04_no_leak.
+
+(* every node conforms to a deactivated shape *)
+Theorem C04_deactivated : forall trig o g E fuel top ep s foci,
+  deact s = true -> vshape trig fuel o g E top ep s foci = Ok (true, []).
+Proof. exact vshape_deactivated. Qed.
+Print Assumptions C04_deactivated.
+
+(* Non-vacuity: sh:not inside sh:or inside a qualified value shape, with a deactivated member. *)
+Definition L1 : shape := {| sid := IRI 201; spath := None; deact := false; ssev := t_Warning; stargets := no_targets; scomps := [CLeaf (LIn [IRI 2])] |}.
+Definition L2 : shape := {| sid := IRI 202; spath := None; deact := true; ssev := t_Violation; stargets := no_targets; scomps := [CLeaf (LIn [])] |}.
+Definition NOT1 : shape := {| sid := BN 3; spath := None; deact := false; ssev := t_Violation; stargets := no_targets; scomps := [CNot [IRI 201]] |}.
+Definition OR1 : shape := {| sid := BN 2; spath := None; deact := false; ssev := t_Violation; stargets := no_targets; scomps := [COr [[BN 3; IRI 202]]] |}.
+Definition Q : shape := {| sid := BN 1; spath := Some (PPred 50); deact := false; ssev := t_Info; stargets := no_targets;
+                           scomps := [CQualified [BN 2] (Some 3%Z) None false] |}.
+Definition TOP : shape := {| sid := IRI 200; spath := None; deact := false; ssev := t_Violation;
+   stargets := {| t_nodes := [IRI 1]; t_classes := []; t_implicit := false; t_subjects_of := []; t_objects_of := [] |};
+   scomps := [CProperty [BN 1]] |}.
+Example C04_nonvacuous :
+  validate_impl default_opts [] [(IRI 1, IRI 50, IRI 2); (IRI 1, IRI 50, IRI 3)] [TOP; Q; OR1; NOT1; L1; L2]
+  = Ok (false, [VR (IRI 1) None sh_QualifiedMinCountConstraintComponent (BN 1) t_Info []]).
+Proof. vm_compute. reflexivity. Qed.
